@@ -9,6 +9,17 @@ From Spec Require Import LayoutSpec.
 Import ListNotations.
 Open Scope Z_scope.
 
+(* what the Rust types and the lexer guarantee about a parsed statement: 16-bit operands of
+   .orig/.blkw, string literals shorter than 65535 bytes *)
+Definition typed_stmt (s : stmt) : bool :=
+  match s_nucleus s with
+  | NDir (DOrig a) => (0 <=? a) && (a <? 65536)
+  | NDir (DBlkw n) => (0 <=? n) && (n <? 65536)
+  | NDir (DStringz t) => byte_len t <? 65535
+  | _ => true
+  end.
+Definition typed (p : list stmt) : bool := forallb typed_stmt p.
+
 Definition inside (c : pos) : bool := match c with Some _ => true | None => false end.
 Definition is_orig (s : stmt) : bool := match s_nucleus s with NDir (DOrig _) => true | _ => false end.
 Definition is_end (s : stmt) : bool := match s_nucleus s with NDir DEnd => true | _ => false end.
